@@ -230,7 +230,14 @@ def run(run):
     except ImportError:
         c19_diff = None
     if c19_diff:
-        c19_diff.run(run)
+        try:
+            c19_diff.run(run)
+        except AnalysisBroken as e:
+            # a configuration that does not compile is already reported by the matrix (C19.a); the differential needs facts of that
+            # configuration and cannot say more. Without a matrix failure a broken differential is a broken analysis.
+            if not any(not o['ok'] and o['rule'] == 'C19.a' for o in run.obligations):
+                raise
+            run.note('differential (C19.b) skipped: %s' % str(e)[:200])
     run.explanation = (
         'Compile matrix over all 2^8 switch combinations (+FFSM2_ENABLE_ALL variants) with the repository\'s own '
         'warning flags as errors; quick: clang++ -std=c++11 on the shipped header plus both compilers x four standards '
